@@ -197,7 +197,16 @@ def render(rng, toks):
 # ----------------------------------------------------------------------------- independent oracles
 def py_flagged(kind, toks):
     """unbalanced parentheses / dangling operator or conditional / empty group (kinds without renames)"""
-    ops = {0: {"||"}, 1: {"||"}, 2: {"||"}, 3: set(), 5: {"||", "^^", "??"}, 6: {"||", "^^", "??"}}[kind]
+    ops = {0: {"||"}, 1: {"||"}, 2: {"||"}, 3: set(), 4: set(), 5: {"||", "^^", "??"}, 6: {"||", "^^", "??"}}[kind]
+    if kind == 4:
+        # structural positions only: "uri -> name" counts as the element "uri"
+        sk, i = [], 0
+        while i < len(toks):
+            t = toks[i]
+            sk.append(t)
+            plain = t not in ("(", ")") and not t.endswith("?") and "|" not in t
+            i += 3 if (plain and i + 2 < len(toks) and toks[i + 1] == "->") else 1
+        toks = sk
     depth = 0
     for i, t in enumerate(toks):
         if t == ")":
@@ -388,7 +397,7 @@ def main(chk: Check):
     chk.count("leaf", len(ATOMS) + len(BAD_ATOMS))
 
     # ---- generate strings
-    n_valid, n_bad = chk.n(320, 2000), chk.n(180, 1000)
+    n_valid, n_bad = chk.n(260, 2000), chk.n(150, 1000)
     maxdepth = 4
     strings = []  # (kind, toks, s, origin)
     kinds_cycle = [0, 0, 0, 5, 5, 2, 4, 3, 1, 6]
@@ -424,7 +433,7 @@ def main(chk: Check):
     # ---- parse stream
     parse_cases, parse_meta, eval_cases, eval_meta = [], [], [], []
     prop_fail = []  # (class, detail)
-    eval_budget = chk.n(750, 7000)
+    eval_budget = chk.n(600, 7000)
     premise_unmet = 0
     for kind, toks, s, origin in strings:
         def do_parse():
@@ -454,7 +463,7 @@ def main(chk: Check):
         if interesting:
             chk.nontrivial((kind, " ".join(stoks)))
         # (B) rejection oracle
-        if kind != 4:
+        if True:
             why = py_flagged(kind, stoks)
             if why and d is not None:
                 prop_fail.append(("accepted-malformed", {"what": f"{why}, yet the string is accepted",
@@ -548,7 +557,8 @@ def main(chk: Check):
     spec_bad = []
     if ok:
         r = chk.coq_eval("parse", IMPORTS, "input", [(i, Raw(pool.val(v))) for i, v in parse_cases],
-                         ["mismatches run_parse cases", "where_ (fun i r => negb (spec_rt_ok i r)) cases"],
+                         ["mismatches run_parse cases", "where_ (fun i r => negb (spec_rt_ok i r)) cases",
+                          "where_ (fun i r => negb (spec_shape_ok i r)) cases"],
                          shard=1500, preamble=pool.preamble())
         if r is not None:
             a_bad += [("parse", parse_meta[i], parse_cases[i][1]) for i in r[0]]
@@ -558,6 +568,13 @@ def main(chk: Check):
                                                        "not parse back to the same tree",
                                                "kind": KIND_NAMES[kind], "input": s, "implementation": parse_cases[i][1],
                                                "tokens": s.split()}))
+            for i in r[2]:
+                kind, s, _ = parse_meta[i]
+                spec_bad.append(("accepted-malformed", {"what": "Spec_C09.spec_shape_ok: an accepted string has unbalanced "
+                                                                "parentheses, a dangling operator/conditional or an empty "
+                                                                "group on its structural positions",
+                                                        "kind": KIND_NAMES[kind], "input": s,
+                                                        "implementation": parse_cases[i][1]}))
         r = chk.coq_eval("eval", IMPORTS, "input", [(i, Raw(pool.val(v))) for i, v in eval_cases],
                          ["mismatches run_eval cases", "where_ (fun i r => negb (spec_eval_ok i r)) cases"],
                          shard=1500, preamble=pool.preamble())
